@@ -384,7 +384,7 @@ void World::drain(int ci, size_t max) {
     c.in.erase(0, r.total_len);
     tr.ev("recv c%d type=%d serial=%u rs=%u member=%s err=%s sender=%s sig=%s", ci, g.m.type, g.m.serial, g.m.reply_serial(),
           g.m.member().c_str(), g.m.error_name().c_str(), g.m.sender().c_str(), g.m.body_sig.c_str());
-    if (c.unique.empty() && g.m.type == wire::T_RETURN && c.hello_serial && g.m.reply_serial() == c.hello_serial &&
+    if (c.unique.empty() && !c.asked_monitor && g.m.type == wire::T_RETURN && c.hello_serial && g.m.reply_serial() == c.hello_serial &&
         g.m.body.size() == 1 && g.m.body[0].type == 's' && g.m.sender() == "org.freedesktop.DBus")
       c.unique = g.m.body[0].str;
     c.got.push_back(std::move(g));
